@@ -12,6 +12,7 @@ PROPERTY_GROUPS = {
     'C12': ['mps'],
     'C13': ['httprange'],
     'C14': ['events', 'scte35', 'mp4'],
+    'C15': ['auth'],
     'C16': ['events', 'bufreader', 'httprange', 'rep', 'timing', 'mps', 'errors'],
     'C19': ['dt'],
     'C20': ['bufreader'],
